@@ -1,5 +1,6 @@
 import Csproto.Props.C05
 import Csproto.Bridge.Templates
+import Csproto.Props.C05Map
 /- axiom audit for C05 -/
 #print axioms Csproto.C05.marshal_is_concatenation
 #print axioms Csproto.C05.unset_emits_nothing
@@ -21,3 +22,35 @@ import Csproto.Bridge.Templates
 #print axioms Csproto.C05.marshal_record_tree
 #print axioms Csproto.C05.record_tree_well_formed
 #print axioms Csproto.C05.record_tree_decodes_to_message
+-- C05Map
+#print axioms Csproto.C05Map.size_exact_maps
+#print axioms Csproto.C05Map.marshalTo_fills_maps
+#print axioms Csproto.C05Map.snippet_size_is_model_size
+#print axioms Csproto.C05Map.snippet_bytes_are_model_bytes
+#print axioms Csproto.C05Map.snippet_exact
+#print axioms Csproto.C05Map.nil_value_entry_is_written_by_the_model
+#print axioms Csproto.C05Map.map_field_is_entry_records
+#print axioms Csproto.C05Map.marshal_record_tree_maps
+#print axioms Csproto.C05Map.record_tree_maps_well_formed
+#print axioms Csproto.C05Map.roundtrip_maps
+#print axioms Csproto.C05Map.roundtrip_maps_mode_independent
+#print axioms Csproto.C05Map.decoded_keys_distinct
+#print axioms Csproto.C05Map.roundtrip_maps_as_finite_map
+#print axioms Csproto.C05Map.roundtrip_order_independent
+#print axioms Csproto.C05Map.roundtrip_order_independent_deep
+#print axioms Csproto.C05Map.order_independent_deep_example
+#print axioms Csproto.C05Map.roundtrip_maps_example
+#print axioms Csproto.C05Map.order_independent_example
+#print axioms Csproto.Gen.roundtrip_map
+#print axioms Csproto.Gen.recs_okM
+#print axioms Csproto.Gen.fold_fieldsM
+#print axioms Csproto.Gen.fold_mapM
+#print axioms Csproto.Gen.fold_entryM
+#print axioms Csproto.Gen.mapInsert_fresh
+#print axioms Csproto.Gen.mapGet_perm
+#print axioms Csproto.Gen.canonFs_mapsPermuted
+#print axioms Csproto.Gen.canon_sameFs
+#print axioms Csproto.Gen.roundtrip_same
+#print axioms Csproto.Gen.tMapSize_eq
+#print axioms Csproto.Gen.tMapOps_eq
+#print axioms Csproto.Gen.tMap_exact
